@@ -229,7 +229,7 @@ func runCheck(o checkOpts) checkOutcome {
 	} else {
 		say("SMT files kept in %s\n", dir)
 	}
-	timeout := 10
+	timeout := 20
 	cross := false
 	if o.tier == "thorough" {
 		timeout = 60
